@@ -14,8 +14,10 @@ enum Mode {
     StructuredFiles,
     PlainPayload,
     StructuredPayload,
+    /// the data file and a copy of it under another name in one run: both get the parameters
+    StructuredTwoDataFiles,
 }
-const MODES: [Mode; 4] = [Mode::PlainFiles, Mode::StructuredFiles, Mode::PlainPayload, Mode::StructuredPayload];
+const MODES: [Mode; 5] = [Mode::PlainFiles, Mode::StructuredFiles, Mode::PlainPayload, Mode::StructuredPayload, Mode::StructuredTwoDataFiles];
 
 fn run_mode(mode: Mode, rules_path: &str, rules_text: &str, data_path: &str, data_text: &str, params: &[String]) -> Run {
     match mode {
@@ -23,12 +25,26 @@ fn run_mode(mode: Mode, rules_path: &str, rules_text: &str, data_path: &str, dat
         Mode::StructuredFiles => validate_files(&[rules_path.to_string()], &[data_path.to_string()], params, &VOpts::structured(Fmt::Json), ""),
         Mode::PlainPayload => validate_payload(&[rules_text.to_string()], &[data_text.to_string()], params, &VOpts::plain(Fmt::Single, vec![Show::All])),
         Mode::StructuredPayload => validate_payload(&[rules_text.to_string()], &[data_text.to_string()], params, &VOpts::structured(Fmt::Json)),
+        Mode::StructuredTwoDataFiles => {
+            // the copy lives next to the data file
+            let copy = format!("{}.copy.json", data_path);
+            write_file(std::path::Path::new(&copy), data_text);
+            validate_files(&[rules_path.to_string()], &[data_path.to_string(), copy], params, &VOpts::structured(Fmt::Json), "")
+        }
     }
 }
 
 fn observe(mode: Mode, r: &Run) -> Result<Obs, String> {
     match mode {
         Mode::PlainFiles | Mode::PlainPayload => parse_table(&r.out, &[Show::All]),
+        Mode::StructuredTwoDataFiles => {
+            let j: J = serde_json::from_str(&r.out).map_err(|e| format!("structured output is not JSON: {}", e))?;
+            let (a, b) = (obs_from_report(&j[0])?, obs_from_report(&j[1])?);
+            if a != b {
+                return Err(format!("the data file and its copy get different verdicts in one run: {:?} vs {:?}", a, b));
+            }
+            Ok(a)
+        }
         _ => {
             let j: J = serde_json::from_str(&r.out).map_err(|e| format!("structured output is not JSON: {}", e))?;
             obs_from_report(&j[0])
@@ -232,7 +248,7 @@ fn random_case(u: &mut Choices, sz: Size) -> CaseResult {
 
 pub fn run(tier: Tier, seed: u64) -> i32 {
     let spec = EvidenceSpec {
-        rule: "A generated top-level map and a document-directed core rules file plus rules that walk the top-level map as a whole (`some this.* == v` and `this[ keys == 'k' ] !empty` per key, `count(this.*)`, `this.* !is_struct`); the map's keys are distributed at random over the data file and 1-3 parameter files; validate is run with -i in every order (<=2 files) or 4 orders (3 files) in four modes (plain and --structured, with -r/-d files and with --payload) and compared with validating the pre-merged document through the same mode: same exit code, same PASS/FAIL/SKIP sets and file status. Parameter files are JSON or block YAML (.yaml/.yml), given one by one or as the directory that holds them (beside a .txt file that must not be used). In a quarter of the cases one key is put into two sources, with the same or another value (parameter/parameter or parameter/data): the run must exit with an error (not 0, not 19), the diagnostic must name the key, and no verdict may be printed. Non-trivial: keys come both from parameter files and from data, and there are >=2 parameter files; distinct by hash of rules, merged document and the overlapping key.".into(),
+        rule: "A generated top-level map and a document-directed core rules file plus rules that walk the top-level map as a whole (`some this.* == v` and `this[ keys == 'k' ] !empty` per key, `count(this.*)`, `this.* !is_struct`); the map's keys are distributed at random over the data file and 1-3 parameter files; validate is run with -i in every order (<=2 files) or 4 orders (3 files) in five modes (plain and --structured, with -r/-d files and with --payload; --structured over the data file and a copy of it in one run) and compared with validating the pre-merged document through the same mode: same exit code, same PASS/FAIL/SKIP sets and file status. Parameter files are JSON or block YAML (.yaml/.yml), given one by one or as the directory that holds them (beside a .txt file that must not be used). In a quarter of the cases one key is put into two sources, with the same or another value (parameter/parameter or parameter/data): the run must exit with an error (not 0, not 19), the diagnostic must name the key, and no verdict may be printed. Non-trivial: keys come both from parameter files and from data, and there are >=2 parameter files; distinct by hash of rules, merged document and the overlapping key.".into(),
         assumptions: vec!["verdict comparison is by rule status sets (the merge order of keys is not part of the property)".into()],
     };
     execute("C17", tier, seed, spec, &replay, &|run: &Session| {
